@@ -1,4 +1,6 @@
 import EpModel.Lemmas.Builder
+import EpModel.Lemmas.BuilderChecksum
+import EpModel.Spec.Decode
 /-
   C10 — PacketBuilder emits consistent, parseable packets of the announced size.
 
@@ -196,6 +198,111 @@ theorem slice_agrees (c : Cfg) (p : Bytes) (cap : Nat) (wf : c.WF) :
     | ok out =>
       have := build_size c p out wf hb
       simp [this]
+
+/-! ### checksums -/
+
+/-- the checksum field of the emitted transport header holds `ck4` / `ck6` computed over the
+    *emitted* IP header (derived lengths and protocol numbers already in place) and the payload. -/
+theorem build_checksums (c : Cfg) (p : Bytes) (t : Tp) (ht : setUdpLen c.tp p.length = some t) :
+    (∀ ip e, c.net = .ipv4 ip e →
+      outTpHeader c p = some (withCk t (ck4 t (ipv4Out ip e (endNum c) (innerLen c p.length)) p))) ∧
+    (∀ ip e, c.net = .ipv6 ip e →
+      outTpHeader c p = some (withCk t (ck6 t (ipv6Out ip e (endNum c) (innerLen c p.length)) p))) := by
+  constructor <;> intro ip e hnet <;> simp [outTpHeader, ht, hnet]
+
+/-- IPv4 header checksum = RFC 1071 checksum of the header words other than the checksum field
+    (for the emitted header: with the derived total length and protocol). -/
+theorem checksum_ipv4_header (ip : Ipv4Header) (e : Ipv4Extensions) (num inner : Nat)
+    (hs : ip.source.length = 4) (hd : ip.destination.length = 4) :
+    let h := ipv4Out ip e num inner
+    h.headerChecksum
+      = Spec.checksum ([u8 ((4 <<< 4) ||| h.ihl), u8 (shl8 h.dscp 2 ||| h.ecn)] ++ enc16 h.totalLen
+          ++ enc16 h.identification ++ [u8 h.fragAndFlags.1, u8 h.fragAndFlags.2]
+          ++ [u8 h.timeToLive, u8 h.protocol] ++ h.source ++ h.destination ++ h.options) := by
+  intro h
+  exact ipv4_header_words
+    { ip with totalLen := (ip.headerLen + inner) % 65536, protocol := (ipv4ExtsSetNextHeaders e num).2 } hs hd
+
+/-- UDP over IPv4: RFC 768 checksum over pseudo header, UDP header with zero checksum field and
+    payload; a computed 0 is transmitted as 0xffff. -/
+theorem checksum_udp_ipv4 (h : Udp) (ip : Ipv4Header) (p : Bytes) (hs : ip.source.length = 4)
+    (hd : ip.destination.length = 4) :
+    ck4 (.udp h) ip p
+      = noZero (Spec.checksum (ip.source ++ ip.destination ++ [0, 17] ++ enc16 h.len
+                                ++ Udp.toBytes { sp := h.sp, dp := h.dp, len := h.len, ck := 0 } ++ p)) :=
+  udp4_bytes h ip p hs hd
+
+/-- UDP over IPv6 (same 16 bit words as the RFC 8200 pseudo header), header words except the
+    checksum field, payload. -/
+theorem checksum_udp_ipv6 (h : Udp) (ip : Ipv6Header) (p : Bytes) (hs : ip.source.length = 16)
+    (hd : ip.destination.length = 16) :
+    ck6 (.udp h) ip p
+      = noZero (Spec.checksum (ip.source ++ ip.destination ++ [0, 17] ++ enc16 h.len
+                                ++ (enc16 h.sp ++ enc16 h.dp ++ enc16 h.len) ++ p)) :=
+  udp6_words h ip p hs hd
+
+/-- TCP over IPv4 / IPv6: the pseudo header length is header + payload (exact), then the header
+    words except the checksum field, the options, the payload. -/
+theorem checksum_tcp_ipv4 (h : Tcp) (ip : Ipv4Header) (p : Bytes) (hs : ip.source.length = 4)
+    (hd : ip.destination.length = 4) (ho : h.opts.asSlice.length % 2 = 0) :
+    ck4 (.tcp h) ip p
+      = Spec.checksum (ip.source ++ ip.destination ++ [0, 6] ++ enc16 (h.headerLen + p.length)
+          ++ (enc16 h.sp ++ enc16 h.dp ++ enc32 h.seq ++ enc32 h.ack ++ [u8 h.byte12, u8 h.byte13]
+              ++ enc16 h.win ++ enc16 h.urgp) ++ h.opts.asSlice ++ p) :=
+  tcp4_words h ip p hs hd ho
+
+theorem checksum_tcp_ipv6 (h : Tcp) (ip : Ipv6Header) (p : Bytes) (hs : ip.source.length = 16)
+    (hd : ip.destination.length = 16) (ho : h.opts.asSlice.length % 2 = 0) :
+    ck6 (.tcp h) ip p
+      = Spec.checksum (ip.source ++ ip.destination ++ enc32 (h.headerLen + p.length) ++ [0, 6]
+          ++ (enc16 h.sp ++ enc16 h.dp ++ enc32 h.seq ++ enc32 h.ack ++ [u8 h.byte12, u8 h.byte13]
+              ++ enc16 h.win ++ enc16 h.urgp) ++ h.opts.asSlice ++ p) :=
+  tcp6_words h ip p hs hd ho
+
+/-- ICMPv4 (also when carried in IPv6): header words except the checksum field, payload. -/
+theorem checksum_icmpv4 (t : Icmp4Type) (p : Bytes) (ok : icmp4LenOk t) :
+    icmp4Checksum t p = Spec.checksum ((icmp4Parts t).flatten ++ p) := icmp4_words t p ok
+
+/-- ICMPv6: pseudo header with next header 58 and the exact 32 bit message length. -/
+theorem checksum_icmpv6 (h : Icmp6) (ip : Ipv6Header) (p : Bytes) (hs : ip.source.length = 16)
+    (hd : ip.destination.length = 16) (ok : icmp6LenOk h.ty) :
+    ck6 (.icmp6 h) ip p
+      = Spec.checksum (ip.source ++ ip.destination ++ [0, 58] ++ enc32 (p.length + 8)
+                        ++ (icmp6Parts h.ty).flatten ++ p) :=
+  icmp6_words h ip p hs hd ok
+
+/-! ### parsing the output
+
+Full statement (not proved here; checked on every explored case by the oracle, which runs
+`Spec.decode` on the implementation's bytes and compares with the configuration): strict
+decoding of the emitted bytes succeeds and yields the layers at the offsets of `build_layout`.
+What is proved (`build_parses_partial`): for the Ethernet II start the C08 decoder model recovers
+the configured addresses and the derived ether type and hands on exactly the remaining layers. -/
+
+def build_parses_full_statement : Prop :=
+  ∀ (c : Cfg) (p out : Bytes), c.WF → build c p = .ok out →
+    (∀ h, c.link = some (.eth2 h) → ∃ pkt, Spec.decode .eth (Dec.memOf out) out.length = .ok pkt ∧
+      pkt.link = some (Dec.LinkR.eth2 ⟨0, out.length⟩)) ∧
+    (∀ s, c.link = some (.sll s) → ∃ pkt, Spec.decode .sll (Dec.memOf out) out.length = .ok pkt) ∧
+    (c.link = none → (∀ a, c.net ≠ .arp a) → ∃ pkt, Spec.decode .ip (Dec.memOf out) out.length = .ok pkt)
+
+theorem build_parses_partial (c : Cfg) (p out : Bytes) (h : Eth2) (wf : c.WF)
+    (hl : c.link = some (.eth2 h)) (hb : build c p = .ok out) :
+    Eth2.fromSlice out
+      = .ok ({ dst := h.dst, src := h.src, et := firstEt c.vlan c.net.etherType },
+             outVlan c ++ outNet c p.length ++ tpBytes (outTpHeader c p) ++ p) := by
+  obtain ⟨_, hout, _, _⟩ := build_layout c p out wf hb
+  have wl := wf.1
+  rw [hl] at wl
+  have het : firstEt c.vlan c.net.etherType < 65536 := by
+    unfold firstEt
+    rcases c.vlan with _ | ⟨v | ⟨o, i⟩⟩ <;> cases c.net <;> simp [Net.etherType]
+  have hw : Eth2.WF { dst := h.dst, src := h.src, et := firstEt c.vlan c.net.etherType } :=
+    ⟨wl.1, wl.2.1, het⟩
+  have := EpModel.Props.C08Link.Eth2.decode_encode _
+    (outVlan c ++ outNet c p.length ++ tpBytes (outTpHeader c p) ++ p) hw
+  rw [hout]
+  simpa [outLink, outLinkOf, hl, List.append_assoc] using this
 
 /-! ### non-vacuity: concrete configurations satisfy the hypotheses (and the negations) -/
 
